@@ -563,7 +563,7 @@ func (g *Gen) genSend() *eng.Tx {
 	if m.Recipient == m.Sender && !g.hostile() {
 		m.Recipient = g.otherActor(m.Sender)
 	}
-	if g.hostile() && g.chance(0.15) {
+	if g.chance(0.06) {
 		m.Recipient = strings.ToUpper(m.Sender) // a send to oneself under another spelling of the address
 	}
 	if g.chance(0.3) {
